@@ -138,6 +138,20 @@ def borrowed_and_name_cases(ctx):
             return False
         return True
     n = H.borrowed_cases(ctx, judge)
+
+    # a warning that the caller's filter turns into an exception is a raise like any other: the call that raised changed nothing
+    def wjudge(info, w, before, o, after, sb, sa):
+        if sb != sa:
+            ctx.violation(what="an append changed one of its sources", error=show(o)[:120], **info)
+            return False
+        if o[0] == "err" and after != before:
+            diff = [k for k in set(before) | set(after) if before.get(k) != after.get(k)]
+            ctx.violation(what="append raised (a mismatch warning turned into an error) after it had changed the receiver", error=show(o)[:120], changed=str(diff),
+                          observed=str({k: after.get(k) for k in diff})[:300], required=str({k: before.get(k) for k in diff})[:300], **info)
+            return False
+        return True
+    n += H.warnings_as_errors_cases(ctx, wjudge)
+    n += H.narrow_scalar_cases(ctx, lambda info, obs, req: ctx.violation(what="a call with narrow NumPy integer scalars differs from the call with the same Python ints", observed=obs, required=req, **info))
     # sources carrying property values of unusual types (whatever a caller put into the mapping): the append either stores them or
     # refuses them, but never half-way
     import numpy as np
